@@ -72,5 +72,340 @@ fn main() {
             }
         }
     }
+    extended::run();
     println!("no violation found");
+}
+
+/// Coverage extension: inner writers that follow a SCRIPT (accept k bytes, accept nothing, fail without taking anything, report
+/// `Interrupted`), lengths around blake3's 64-byte block and 1024-byte chunk borders, `flush` pass-through, `write_vectored`,
+/// `BufWriter` / `io::copy` on top, `into_inner`, repeated `hash()`.  Oracle in every case: `hash()` == the keyed blake3 of exactly
+/// the bytes the INNER writer accepted (own copy of the published data key; also compared with `compute_data_hash`), and the value
+/// returned by every `write` call == the value the inner writer returned.
+mod extended {
+    use std::io::{BufWriter, IoSlice, Write};
+
+    use merklehash::{compute_data_hash, HashedWrite, MerkleHash};
+
+    /// the published key of the leaf / data hash (merklehash::data_hash::DATA_KEY)
+    const DATA_KEY: [u8; 32] = [
+        102, 151, 245, 119, 91, 149, 80, 222, 49, 53, 203, 172, 165, 151, 24, 28, 157, 228, 33, 16, 155, 235, 43, 88, 180, 208, 176, 75, 147, 173, 242, 41,
+    ];
+
+    fn witness(msg: String) -> ! {
+        println!("WITNESS {msg}");
+        std::process::exit(1);
+    }
+
+    fn one_shot(bytes: &[u8]) -> MerkleHash {
+        let own = MerkleHash::from(*blake3::keyed_hash(&DATA_KEY, bytes).as_bytes());
+        let lib = compute_data_hash(bytes);
+        if own != lib {
+            witness(format!("compute_data_hash of {} bytes is {} but blake3 keyed with the published data key gives {}", bytes.len(), lib.hex(), own.hex()));
+        }
+        own
+    }
+
+    #[derive(Clone, Copy, Debug, PartialEq)]
+    enum Step {
+        /// accept at most this many bytes
+        Take(usize),
+        /// Ok(0) although bytes were offered
+        Zero,
+        /// Err(Other), nothing taken
+        Fail,
+        /// Err(Interrupted), nothing taken (write_all retries by itself)
+        Interrupted,
+    }
+
+    struct Scripted {
+        out: Vec<u8>,
+        script: Vec<Step>,
+        calls: usize,
+        flushes: usize,
+        fail_flush_at: Option<usize>,
+        returned: Vec<Result<usize, std::io::ErrorKind>>,
+    }
+    impl Scripted {
+        fn new(script: Vec<Step>) -> Self {
+            Scripted { out: vec![], script, calls: 0, flushes: 0, fail_flush_at: None, returned: vec![] }
+        }
+    }
+    impl Write for Scripted {
+        fn write(&mut self, buf: &[u8]) -> std::io::Result<usize> {
+            let step = if self.script.is_empty() { Step::Take(usize::MAX) } else { self.script[self.calls % self.script.len()] };
+            self.calls += 1;
+            let r = match step {
+                Step::Take(k) => {
+                    let n = k.min(buf.len());
+                    self.out.extend_from_slice(&buf[..n]);
+                    Ok(n)
+                },
+                Step::Zero => Ok(0),
+                Step::Fail => Err(std::io::Error::new(std::io::ErrorKind::Other, "scripted failure")),
+                Step::Interrupted => Err(std::io::Error::new(std::io::ErrorKind::Interrupted, "scripted interruption")),
+            };
+            self.returned.push(r.as_ref().map(|n| *n).map_err(|e| e.kind()));
+            r
+        }
+        fn flush(&mut self) -> std::io::Result<()> {
+            self.flushes += 1;
+            if Some(self.flushes) == self.fail_flush_at {
+                return Err(std::io::Error::new(std::io::ErrorKind::Other, "scripted flush failure"));
+            }
+            Ok(())
+        }
+    }
+
+    fn data(n: usize, salt: u32) -> Vec<u8> {
+        (0..n as u32).map(|i| ((i ^ salt).wrapping_mul(2654435761) >> 11) as u8).collect()
+    }
+
+    /// Offers `input` through raw `write` calls (offering at most `offer` bytes per call), retrying after every error and after
+    /// every Ok(0) (at most `give_up` calls in total); after EVERY call the running hash must be the hash of what the inner writer holds.
+    fn drive_raw(what: &str, input: &[u8], script: Vec<Step>, offer: usize, probe_every_call: bool) {
+        let mut w = HashedWrite::new(Scripted::new(script.clone()));
+        let mut pos = 0;
+        let mut calls = 0usize;
+        let give_up = 40 * (input.len() + 10);
+        let mut accepted_by_return = 0usize;
+        while pos < input.len() && calls < give_up {
+            let end = pos.saturating_add(offer.max(1)).min(input.len());
+            let r = w.write(&input[pos..end]);
+            calls += 1;
+            if let Ok(n) = &r {
+                if *n > end - pos {
+                    witness(format!("{what}: HashedWrite::write returned {n} for an offer of {} bytes", end - pos));
+                }
+                pos += *n;
+                accepted_by_return += *n;
+            }
+            if probe_every_call || calls % 97 == 0 {
+                // cannot look into the inner writer while it is wrapped: the bytes accepted so far are input[..pos]
+                let h = w.hash();
+                let want = one_shot(&input[..pos]);
+                if h != want {
+                    witness(format!("{what}: after write call #{calls} (which returned {:?}) the inner writer has accepted {pos} bytes, but hash() = {} and the one-shot hash of those {pos} bytes = {}", r.as_ref().map_err(|e| e.kind()), h.hex(), want.hex()));
+                }
+            }
+        }
+        let h1 = w.hash();
+        let h2 = w.hash();
+        let inner = w.into_inner();
+        if h1 != h2 {
+            witness(format!("{what}: two consecutive hash() calls differ: {} vs {}", h1.hex(), h2.hex()));
+        }
+        if inner.out[..] != input[..pos] || accepted_by_return != inner.out.len() {
+            witness(format!("{what}: into_inner() returns a writer holding {} bytes, the write calls reported {accepted_by_return} accepted bytes", inner.out.len()));
+        }
+        if inner.calls != calls {
+            witness(format!("{what}: {calls} write calls were made on HashedWrite, the inner writer saw {}", inner.calls));
+        }
+        let want = one_shot(&inner.out);
+        if h1 != want {
+            witness(format!("{what}: the inner writer accepted {} bytes (per-call results {:?}...), streaming hash {} != one-shot hash of the accepted bytes {}", inner.out.len(), &inner.returned[..inner.returned.len().min(12)], h1.hex(), want.hex()));
+        }
+    }
+
+    pub fn run() {
+        let seed: u64 = std::env::var("VERIF_SEED").ok().and_then(|s| s.parse().ok()).unwrap_or(0);
+        let mut x = seed.wrapping_mul(0x9E37_79B9_7F4A_7C15) ^ 0xD1B5_4A32_D192_ED03;
+        let mut next = move |m: usize| -> usize {
+            x ^= x << 13; x ^= x >> 7; x ^= x << 17;
+            (x % m as u64) as usize
+        };
+        // lengths around blake3's 64-byte block and 1024-byte chunk borders (and the 2- and 4-chunk subtree borders)
+        let lengths = [0usize, 1, 2, 3, 31, 32, 33, 63, 64, 65, 127, 128, 129, 1023, 1024, 1025, 1087, 1088, 1089, 2047, 2048, 2049, 3071, 3072, 3073, 4095, 4096, 4097, 8191, 8192, 8193, 16384, 65537];
+
+        // 1. fresh writer, nothing written
+        {
+            let w = HashedWrite::new(Scripted::new(vec![]));
+            let (h, want) = (w.hash(), one_shot(b""));
+            if h != want {
+                witness(format!("HashedWrite with nothing written: hash() = {} but the one-shot hash of the empty string is {}", h.hex(), want.hex()));
+            }
+            let mut w = HashedWrite::new(Scripted::new(vec![]));
+            for _ in 0..3 {
+                match w.write(&[]) {
+                    Ok(0) => {},
+                    other => witness(format!("HashedWrite::write(&[]) returned {other:?}")),
+                }
+            }
+            w.write_all(&[]).unwrap();
+            if w.hash() != want {
+                witness(format!("HashedWrite after three empty write calls: hash() = {} but the one-shot hash of the empty string is {}", w.hash().hex(), want.hex()));
+            }
+        }
+        // 2. every length x scripts (one-shot offers and small offers)
+        let scripts: Vec<(&str, Vec<Step>)> = vec![
+            ("accepts everything", vec![]),
+            ("accepts 1 byte per call", vec![Step::Take(1)]),
+            ("accepts 63 / 1 / 64 / 65 bytes in turn", vec![Step::Take(63), Step::Take(1), Step::Take(64), Step::Take(65)]),
+            ("accepts 1023 / 1 / 1024 / 1025 bytes in turn", vec![Step::Take(1023), Step::Take(1), Step::Take(1024), Step::Take(1025)]),
+            ("answers Ok(0) on every other call", vec![Step::Zero, Step::Take(700)]),
+            ("answers Ok(0) twice, then takes 3 bytes", vec![Step::Zero, Step::Zero, Step::Take(3)]),
+            ("fails on the first call, then accepts", vec![Step::Fail, Step::Take(usize::MAX), Step::Take(usize::MAX), Step::Take(usize::MAX), Step::Take(usize::MAX), Step::Take(usize::MAX), Step::Take(usize::MAX)]),
+            ("fails on every third call, takes 500 otherwise", vec![Step::Take(500), Step::Take(500), Step::Fail]),
+            ("is interrupted on every second call, takes 100 otherwise", vec![Step::Interrupted, Step::Take(100)]),
+        ];
+        for &n in &lengths {
+            let input = data(n, n as u32);
+            for (sname, script) in &scripts {
+                for offer in [usize::MAX, 1000, 64, 7] {
+                    if n > 10_000 && offer < 64 {
+                        continue;
+                    }
+                    if script.iter().all(|s| *s == Step::Take(1)) && !script.is_empty() && n > 10_000 {
+                        continue;
+                    }
+                    drive_raw(&format!("HashedWrite over a writer that {sname}, {n} bytes offered through write() in offers of at most {offer} bytes"), &input, script.clone(), offer, n <= 4200);
+                }
+            }
+        }
+        // 3. random scripts
+        for round in 0..60 {
+            let n = [next(300), next(5000), 1024 + next(3), 2048 - 1 + next(3)][round % 4];
+            let input = data(n, round as u32);
+            let script: Vec<Step> = (0..1 + next(9)).map(|_| match next(10) { 0 => Step::Zero, 1 => Step::Fail, 2 => Step::Interrupted, 3 => Step::Take(usize::MAX), _ => Step::Take(1 + next(1100)) }).collect();
+            if script.iter().all(|s| matches!(s, Step::Zero | Step::Fail | Step::Interrupted)) {
+                continue;
+            }
+            let offer = [usize::MAX, 1 + next(2000)][next(2)];
+            drive_raw(&format!("HashedWrite over a writer with the random script {script:?} (VERIF_SEED={seed}, round {round}), {n} bytes in offers of at most {offer}"), &input, script, offer, true);
+        }
+        // 4. failing writes at the first / a middle / the last call under write_all: the error comes back, the hash covers exactly
+        //    what was accepted, and a retry of the rest completes the stream
+        for &n in &[1usize, 64, 1024, 1025, 5000] {
+            let input = data(n, 77);
+            let per_call = 300usize;
+            let total_calls = n.div_ceil(per_call);
+            for fail_at in [0usize, total_calls / 2, total_calls - 1] {
+                let mut script: Vec<Step> = (0..total_calls + 1).map(|_| Step::Take(per_call)).collect();
+                script.insert(fail_at, Step::Fail);
+                let what = format!("HashedWrite over a writer taking {per_call} bytes per call that fails once at call #{fail_at}, {n} bytes through write_all");
+                let mut w = HashedWrite::new(Scripted::new(script));
+                match w.write_all(&input) {
+                    Err(e) if e.kind() == std::io::ErrorKind::Other => {},
+                    other => witness(format!("{what}: write_all returned {other:?} although the inner writer reported an error")),
+                }
+                let accepted = (fail_at * per_call).min(n);
+                let (h, want) = (w.hash(), one_shot(&input[..accepted]));
+                if h != want {
+                    witness(format!("{what}: after the failed write_all the inner writer holds {accepted} bytes, hash() = {} but their one-shot hash is {}", h.hex(), want.hex()));
+                }
+                w.write_all(&input[accepted..]).unwrap_or_else(|e| witness(format!("{what}: the retry of the remaining {} bytes failed: {e}", n - accepted)));
+                let h = w.hash();
+                let inner = w.into_inner();
+                if inner.out != input {
+                    witness(format!("{what}: after the retry the inner writer holds {} bytes, {n} were written", inner.out.len()));
+                }
+                if h != one_shot(&input) {
+                    witness(format!("{what}: after failure and retry the inner writer holds exactly the {n} input bytes, but hash() = {} and their one-shot hash = {}", h.hex(), one_shot(&input).hex()));
+                }
+            }
+            // a writer that stops accepting (Ok(0)) in the middle: write_all must report WriteZero, the hash covers the accepted part
+            let mut w = HashedWrite::new(Scripted::new(vec![Step::Take(n / 2), Step::Zero]));
+            if n >= 2 {
+                match w.write_all(&input) {
+                    Err(e) if e.kind() == std::io::ErrorKind::WriteZero => {},
+                    other => witness(format!("write_all of {n} bytes over a writer that takes {} bytes and then answers Ok(0) returned {other:?}", n / 2)),
+                }
+                let (h, want) = (w.hash(), one_shot(&input[..n / 2]));
+                if h != want {
+                    witness(format!("HashedWrite over a writer that took {} of {n} bytes and then answered Ok(0): hash() = {} but the one-shot hash of the accepted bytes is {}", n / 2, h.hex(), want.hex()));
+                }
+            }
+        }
+        // 5. flush is passed through (count, error) and does not touch the hash
+        {
+            let input = data(3000, 5);
+            let mut inner = Scripted::new(vec![Step::Take(1000)]);
+            inner.fail_flush_at = Some(2);
+            let mut w = HashedWrite::new(inner);
+            w.write_all(&input[..1500]).unwrap();
+            let r1 = w.flush();
+            let h_mid = w.hash();
+            let r2 = w.flush();
+            let r3 = w.flush();
+            if r1.is_err() || r2.is_ok() || r3.is_err() {
+                witness(format!("HashedWrite::flush over a writer whose 2nd flush fails returned {r1:?}, {r2:?}, {r3:?} for the three calls"));
+            }
+            if h_mid != one_shot(&input[..1500]) || w.hash() != h_mid {
+                witness(format!("HashedWrite: hash() after 1500 bytes and flush calls is {} / {}, the one-shot hash is {}", h_mid.hex(), w.hash().hex(), one_shot(&input[..1500]).hex()));
+            }
+            w.write_all(&input[1500..]).unwrap();
+            let h = w.hash();
+            let inner = w.into_inner();
+            if inner.flushes != 3 {
+                witness(format!("HashedWrite::flush was called 3 times, the inner writer saw {} flush calls", inner.flushes));
+            }
+            if h != one_shot(&input) || inner.out != input {
+                witness(format!("HashedWrite: 3000 bytes written around three flush calls: hash() = {}, one-shot {}", h.hex(), one_shot(&input).hex()));
+            }
+        }
+        // 6. write_vectored, BufWriter on top (as the documentation recommends), io::copy, by_ref
+        for &n in &[0usize, 5, 64, 1024, 1025, 20_000] {
+            let input = data(n, 9);
+            for per_call in [usize::MAX, 1000, 3] {
+                let what = format!("{n} bytes over an inner writer accepting at most {per_call} bytes per call");
+                // vectored
+                let mut w = HashedWrite::new(Scripted::new(vec![Step::Take(per_call)]));
+                let mut pos = 0;
+                let mut guard = 0;
+                while pos < n && guard < 100_000 {
+                    guard += 1;
+                    let a = (pos + 10).min(n);
+                    let b = (a + 700).min(n);
+                    let c = (b + 1).min(n);
+                    let bufs = [IoSlice::new(&[]), IoSlice::new(&input[pos..a]), IoSlice::new(&input[a..b]), IoSlice::new(&input[b..c])];
+                    match w.write_vectored(&bufs) {
+                        Ok(k) => pos += k,
+                        Err(e) => witness(format!("write_vectored, {what}: error {e}")),
+                    }
+                }
+                let h = w.hash();
+                let inner = w.into_inner();
+                if inner.out[..] != input[..pos] || h != one_shot(&inner.out) {
+                    witness(format!("write_vectored, {what}: the inner writer holds {} bytes (the calls reported {pos}); hash() = {}, one-shot hash of the bytes held = {}", inner.out.len(), h.hex(), one_shot(&inner.out).hex()));
+                }
+                // BufWriter over &mut HashedWrite
+                let mut w = HashedWrite::new(Scripted::new(vec![Step::Take(per_call)]));
+                {
+                    let mut bw = BufWriter::with_capacity(257, &mut w);
+                    for piece in input.chunks(100) {
+                        bw.write_all(piece).unwrap();
+                    }
+                    bw.flush().unwrap();
+                }
+                let h = w.hash();
+                let inner = w.into_inner();
+                if inner.out != input || h != one_shot(&input) {
+                    witness(format!("BufWriter(257) over HashedWrite, {what}: inner writer holds {} bytes; hash() = {}, one-shot = {}", inner.out.len(), h.hex(), one_shot(&input).hex()));
+                }
+                // io::copy into by_ref()
+                let mut w = HashedWrite::new(Scripted::new(vec![Step::Take(per_call)]));
+                let copied = std::io::copy(&mut &input[..], w.by_ref()).unwrap();
+                let h = w.hash();
+                let inner = w.into_inner();
+                if copied as usize != n || inner.out != input || h != one_shot(&input) {
+                    witness(format!("io::copy into HashedWrite, {what}: copied {copied}, inner writer holds {} bytes; hash() = {}, one-shot = {}", inner.out.len(), h.hex(), one_shot(&input).hex()));
+                }
+            }
+        }
+        // 7. two hashers used alternately do not influence each other; different contents give different hashes
+        {
+            let (a, b) = (data(5000, 1), data(5000, 2));
+            let mut wa = HashedWrite::new(Vec::new());
+            let mut wb = HashedWrite::new(Vec::new());
+            for i in 0..50 {
+                wa.write_all(&a[i * 100..(i + 1) * 100]).unwrap();
+                wb.write_all(&b[i * 100..(i + 1) * 100]).unwrap();
+            }
+            if wa.hash() != one_shot(&a) || wb.hash() != one_shot(&b) || wa.hash() == wb.hash() {
+                witness(format!("two HashedWrite instances fed alternately: hashes {} / {}, one-shot hashes {} / {}", wa.hash().hex(), wb.hash().hex(), one_shot(&a).hex(), one_shot(&b).hex()));
+            }
+            if wa.into_inner() != a {
+                witness("into_inner() of a HashedWrite<Vec<u8>> does not return the bytes written".into());
+            }
+        }
+    }
 }
